@@ -111,7 +111,7 @@ class CombiningMarkWriter(RawWriter):
     @property
     def marks_str(self) -> str:
         """Returns a string representation of this writer's combining marks."""
-        return ''.join(self._marks)
+        return ''.join(sorted(self._marks))
 
     def write(self, s: str) -> int:
         """Writes a string to :attr:`self.parent<CombiningMarkWriter.parent>`.
